@@ -145,6 +145,12 @@ func vScenarioC10(rc *runCtx) {
 	var stopAt time.Duration = -1
 	pm := []int{30, 100, 400}[tp.Draw("c10.rate", 3)]
 	think := []time.Duration{50 * time.Millisecond, 300 * time.Millisecond, 2 * time.Second}[tp.Draw("c10.think", 3)]
+	// now and then the question stays open for longer than any bound in this check: the peer may have given
+	// up by then (that is C18's subject), but the side that owns the question still ends promptly once answered
+	longThink := strings.HasPrefix(how, "user-") && tp.Bool("c10.longthink", 120)
+	if longThink {
+		think = 3*vMaxDur(T, 20*time.Second) + 15*time.Second + time.Duration(tp.Draw("c10.longextra", 60))*time.Second
+	}
 	vOnChunk(rc, x, armed, pm, func() {
 		rc.fault("stop-" + how)
 		switch how {
@@ -202,6 +208,19 @@ func vScenarioC10(rc *runCtx) {
 	}
 	if x.serverDoneAt > stopAt+bound || x.clientDoneAt > stopAt+bound {
 		rc.violate("late", "C10:late:"+how, "stop (%s) at %v: server returned at %v, client at %v; bound 3*max(T,20s)+10s with T=%v", how, stopAt, x.serverDoneAt, x.clientDoneAt, T)
+		return
+	}
+	if longThink {
+		// the peer may have timed out on its own long before the answer: only termination and "no success for an
+		// incomplete file" are asserted here
+		vCheckFidelity(rc, x, rep, before, false)
+		if rc.res.Class == "violation" {
+			rc.res.Sig = strings.Replace(rc.res.Sig, "C01:", "C10:longthink:", 1)
+			return
+		}
+		rc.w.Probe("stop-answered-after-long-think")
+		rc.res.Probes = rc.w.Probes
+		rc.res.Nontrivial = true
 		return
 	}
 	// what each side said
@@ -306,6 +325,13 @@ func vScenarioC10(rc *runCtx) {
 	}
 	rc.res.Probes = rc.w.Probes
 	rc.res.Nontrivial = true
+}
+
+func vMaxDur(a, b time.Duration) time.Duration {
+	if a > b {
+		return a
+	}
+	return b
 }
 
 func vFirstLine(s string) string {
